@@ -51,7 +51,7 @@ def parseNode (s : String) : Option Node :=
   | p :: r :: k :: rs :: rest =>
     let kind := k.toList.headD 't'
     let raw := if rs = "-" then [] else rs.toList
-    let rules := raw.map fun ch => ch == 'o' || ch == 'O'
+    let rules := raw.map fun ch => ch == 'o' || ch == 'O' || ch == 'P'
     let link := (rest.head?.bind (·.toList.head?)).getD 'c'
     if p = "-" then some { parent := none, prule := 0, kind, rules, raw, link := 'c' }
     else do
